@@ -217,6 +217,12 @@ func (lg *locGen) op() map[string]interface{} {
 			// the indexed state used to leave every rule with a "schedule" member out of the index)
 			if _, have := rule["when"]; have {
 				rule["schedule"] = pick(r, "", "", "", nil)
+				if lg.hooks {
+					// (the cron add hook rejects a null schedule AFTER the indexed state has indexed the
+					// rule: the undo leaves empty index nodes, which only finding D7 can see - see the
+					// note on vetoed rules; with hooks the empty string only)
+					rule["schedule"] = ""
+				}
 			}
 		}
 		if lg.profile == "cascade" && r.Intn(2) == 0 {
@@ -249,14 +255,14 @@ func (lg *locGen) op() map[string]interface{} {
 			}
 		}
 		if lg.hooks && (lg.profile == "dispatch" || lg.profile == "lifecycle") {
-			if old, have := lg.rules[id]; have && o["id"] == id && r.Intn(4) == 0 {
+			if old, have := lg.rules[id]; have && o["id"] == id && r.Intn(3) == 0 {
 				// a replacement that the state's add hook rejects: same `when` (same place in the
 				// pattern index), "veto": true; the stored rule must stay as it was - and findable
 				// (only such replacements are vetoed: a vetoed rule with a NEW pattern leaves empty nodes in
 				// the pattern index - add then undo - which the model's "state unchanged" does not carry and
 				// which decide whether an unsortable event is refused, finding D7)
 				rule = deepCopy(old).(map[string]interface{})
-				if r.Intn(3) == 0 {
+				if r.Intn(2) == 0 {
 					// ... or a SCHEDULED rule (never indexed, whatever its `when`): the roll-back must go
 					// by the stored rule, which is an event rule and has to be findable again
 					rule["schedule"] = "+1h"
